@@ -48,100 +48,308 @@ end Members
 macro "func_bash" f:ident env:ident conf:ident : tactic => `(tactic|
   (rcases $f:ident with ⟨o, nm, dc, sg, an, nt, mk, w⟩
    rcases $env:ident with ⟨op⟩
-   rcases $conf:ident with ⟨z⟩
-   cases op <;> cases z <;> cases an <;> cases nt <;> cases mk <;>
-     simp [decorFunc, Func.unbeartypeable, Func.setNtc, Func.clearNtc, Func.mkWrapper, Func.ann, Func.ntc,
-           Func.marker, Func.oid, Func.facts, Func.name, Func.doc, Func.sig, Func.erase, Func.noop,
-           Func.wrapped]))
+   rcases $conf:ident with ⟨z, wn⟩
+   cases op <;> cases z <;> cases wn <;> cases an <;> cases nt <;> cases mk <;>
+     simp [decorFunc, decorFuncObj, guard, Func.unbeartypeable, Func.setNtc, Func.clearNtc, Func.mkWrapper,
+           Func.ann, Func.ntc, Func.marker, Func.oid, Func.facts, Func.name, Func.doc, Func.sig, Func.erase,
+           Func.noop, Func.fails, Func.wrapped]))
 
-theorem decorFunc_cases (env : Env) (conf : Conf) (f : Func) (n : Nat) :
+theorem decorFunc_cases (env : Env) (conf : Conf) (f : Func) (st : St) :
     let f1 := if conf.o0 then f.setNtc else f
-    (decorFunc env conf f n = (f1, n) ∧ (f1.unbeartypeable env = true ∨ f1.ann = .ignorable)) ∨
-    (decorFunc env conf f n = (f1.mkWrapper n, n + 1) ∧ f1.unbeartypeable env = false ∧ f1.ann = .checked ∧
-      conf.o0 = false) := by
+    (decorFunc env conf f st = ⟨f1, st, false⟩ ∧ (f1.unbeartypeable env = true ∨ f1.ann = .ignorable)) ∨
+    (decorFunc env conf f st = ⟨f, st, true⟩ ∧ f.fails env conf = true) ∨
+    (decorFunc env conf f st = ⟨f1.mkWrapper st.next, ⟨st.next + 1, st.warns⟩, false⟩ ∧
+      f1.unbeartypeable env = false ∧ f1.ann = .checked ∧ conf.o0 = false) := by
   func_bash f env conf
 
-/-- the result of a decoration is unbeartypeable: decorating it again changes nothing -/
-theorem decorFunc_idem (env : Env) (conf : Conf) (f : Func) (n n' : Nat) :
-    decorFunc env conf (decorFunc env conf f n).1 n' = ((decorFunc env conf f n).1, n') := by
+/-- the decoration of a function raises exactly when the function `fails` -/
+theorem decorFunc_raised (env : Env) (conf : Conf) (f : Func) (st : St) :
+    (decorFunc env conf f st).raised = f.fails env conf := by
   func_bash f env conf
 
-theorem decorFuncOpt_idem (env : Env) (conf : Conf) (f : Option Func) (n n' : Nat) :
-    decorFuncOpt env conf (decorFuncOpt env conf f n).1 n' = ((decorFuncOpt env conf f n).1, n') := by
+/-- a decoration that raises has changed nothing -/
+theorem decorFunc_of_fails (env : Env) (conf : Conf) (f : Func) (st : St) (h : f.fails env conf = true) :
+    decorFunc env conf f st = ⟨f, st, true⟩ := by
+  revert h
+  func_bash f env conf
+
+/-- the result of a decoration is unbeartypeable: decorating it again changes nothing (and a
+    function whose decoration raised makes it raise again) -/
+theorem decorFunc_idem (env : Env) (conf : Conf) (f : Func) (st st' : St) :
+    decorFunc env conf (decorFunc env conf f st).val st' =
+      ⟨(decorFunc env conf f st).val, st', (decorFunc env conf f st).raised⟩ := by
+  func_bash f env conf
+
+theorem decorFunc_fails_val (env : Env) (conf : Conf) (f : Func) (st : St) :
+    (decorFunc env conf f st).val.fails env conf = f.fails env conf := by
+  func_bash f env conf
+
+theorem decorFunc_facts (env : Env) (conf : Conf) (f : Func) (st : St) :
+    (decorFunc env conf f st).val.facts = f.facts := by
+  func_bash f env conf
+
+theorem decorFunc_mono (env : Env) (conf : Conf) (f : Func) (st : St) :
+    st.next ≤ (decorFunc env conf f st).st.next ∧ (decorFunc env conf f st).st.warns = st.warns := by
+  func_bash f env conf
+
+/-- the result is the object passed in, or an object allocated now -/
+theorem decorFunc_oid (env : Env) (conf : Conf) (f : Func) (st : St) :
+    ((decorFunc env conf f st).val.oid = f.oid ∧ (decorFunc env conf f st).st = st) ∨
+    ((decorFunc env conf f st).val.oid = st.next ∧ (decorFunc env conf f st).st = ⟨st.next + 1, st.warns⟩ ∧
+      (decorFunc env conf f st).raised = false) := by
+  func_bash f env conf
+
+/-- a no-op case: same function object (modulo the O0 flag), nothing allocated, nothing raised -/
+theorem decorFunc_noop (env : Env) (conf : Conf) (f : Func) (st : St) (h : f.noop env conf = true) :
+    (decorFunc env conf f st).val.erase = f.erase ∧ (decorFunc env conf f st).st = st ∧
+    (decorFunc env conf f st).raised = false := by
+  revert h
+  func_bash f env conf
+
+/-- the warning count of the input state does not influence a function decision -/
+theorem decorFunc_warns (env : Env) (conf : Conf) (f : Func) (n w w' : Nat) :
+    (decorFunc env conf f ⟨n, w⟩).val = (decorFunc env conf f ⟨n, w'⟩).val ∧
+    (decorFunc env conf f ⟨n, w⟩).st.next = (decorFunc env conf f ⟨n, w'⟩).st.next ∧
+    (decorFunc env conf f ⟨n, w⟩).raised = (decorFunc env conf f ⟨n, w'⟩).raised := by
+  func_bash f env conf
+
+/-! ### optional accessors of a property -/
+
+theorem decorFuncOpt_raised (env : Env) (conf : Conf) (f : Option Func) (st : St) :
+    (decorFuncOpt env conf f st).raised = Func.failsOpt env conf f := by
+  cases f with
+  | none => rfl
+  | some f => simp [decorFuncOpt, Func.failsOpt, decorFunc_raised]
+
+theorem decorFuncOpt_idem (env : Env) (conf : Conf) (f : Option Func) (st st' : St) :
+    decorFuncOpt env conf (decorFuncOpt env conf f st).val st' =
+      ⟨(decorFuncOpt env conf f st).val, st', (decorFuncOpt env conf f st).raised⟩ := by
   cases f with
   | none => rfl
   | some f => simp [decorFuncOpt, decorFunc_idem]
 
-theorem decorFunc_facts (env : Env) (conf : Conf) (f : Func) (n : Nat) :
-    (decorFunc env conf f n).1.facts = f.facts := by
-  func_bash f env conf
-
-theorem decorFuncOpt_facts (env : Env) (conf : Conf) (f : Option Func) (n : Nat) :
-    (decorFuncOpt env conf f n).1.map Func.facts = f.map Func.facts := by
+theorem decorFuncOpt_facts (env : Env) (conf : Conf) (f : Option Func) (st : St) :
+    (decorFuncOpt env conf f st).val.map Func.facts = f.map Func.facts := by
   cases f with
   | none => rfl
   | some f => simp [decorFuncOpt, decorFunc_facts]
 
-theorem decorFunc_mono (env : Env) (conf : Conf) (f : Func) (n : Nat) : n ≤ (decorFunc env conf f n).2 := by
+theorem decorFuncOpt_noop (env : Env) (conf : Conf) (f : Option Func) (st : St)
+    (h : Func.noopOpt env conf f = true) :
+    (decorFuncOpt env conf f st).val.map Func.erase = f.map Func.erase ∧ (decorFuncOpt env conf f st).st = st ∧
+    (decorFuncOpt env conf f st).raised = false := by
+  cases f with
+  | none => exact ⟨rfl, rfl, rfl⟩
+  | some f =>
+    have := decorFunc_noop env conf f st h
+    simp [decorFuncOpt, this]
+
+theorem decorFuncOpt_warns (env : Env) (conf : Conf) (f : Option Func) (n w w' : Nat) :
+    (decorFuncOpt env conf f ⟨n, w⟩).val = (decorFuncOpt env conf f ⟨n, w'⟩).val ∧
+    (decorFuncOpt env conf f ⟨n, w⟩).st.next = (decorFuncOpt env conf f ⟨n, w'⟩).st.next ∧
+    (decorFuncOpt env conf f ⟨n, w⟩).raised = (decorFuncOpt env conf f ⟨n, w'⟩).raised := by
+  cases f with
+  | none => exact ⟨rfl, rfl, rfl⟩
+  | some f =>
+    have := decorFunc_warns env conf f n w w'
+    simp [decorFuncOpt, this]
+
+theorem decorFuncOpt_st_warns (env : Env) (conf : Conf) (f : Option Func) (st : St) :
+    (decorFuncOpt env conf f st).st.warns = st.warns := by
+  cases f with
+  | none => rfl
+  | some f => simp [decorFuncOpt, (decorFunc_mono env conf f st).2]
+
+/-! ### the guarded function decision (wrappee of a classmethod / staticmethod) -/
+
+theorem decorFuncObj_raised (env : Env) (conf : Conf) (f : Func) (st : St) :
+    (decorFuncObj env conf f st).raised = (f.fails env conf && !conf.warn) := by
   func_bash f env conf
 
-/-- the result is the object passed in, or an object allocated now -/
-theorem decorFunc_oid (env : Env) (conf : Conf) (f : Func) (n : Nat) :
-    ((decorFunc env conf f n).1.oid = f.oid ∧ (decorFunc env conf f n).2 = n) ∨
-    ((decorFunc env conf f n).1.oid = n ∧ (decorFunc env conf f n).2 = n + 1) := by
+theorem decorFuncObj_facts (env : Env) (conf : Conf) (f : Func) (st : St) :
+    (decorFuncObj env conf f st).val.facts = f.facts := by
   func_bash f env conf
 
-/-- a no-op case: same function object (modulo the O0 flag), nothing allocated -/
-theorem decorFunc_noop (env : Env) (conf : Conf) (f : Func) (n : Nat) (h : f.noop env conf = true) :
-    (decorFunc env conf f n).1.erase = f.erase ∧ (decorFunc env conf f n).2 = n := by
+theorem decorFuncObj_idem (env : Env) (conf : Conf) (f : Func) (st st' : St) :
+    (decorFuncObj env conf (decorFuncObj env conf f st).val st').val = (decorFuncObj env conf f st).val ∧
+    (decorFuncObj env conf (decorFuncObj env conf f st).val st').raised = (decorFuncObj env conf f st).raised := by
+  func_bash f env conf
+
+theorem decorFuncObj_of_raised (env : Env) (conf : Conf) (f : Func) (st : St)
+    (h : (decorFuncObj env conf f st).raised = true) : (decorFuncObj env conf f st).val = f := by
   revert h
   func_bash f env conf
 
-theorem decorFuncOpt_noop (env : Env) (conf : Conf) (f : Option Func) (n : Nat)
-    (h : Func.noopOpt env conf f = true) :
-    (decorFuncOpt env conf f n).1.map Func.erase = f.map Func.erase ∧ (decorFuncOpt env conf f n).2 = n := by
-  cases f with
-  | none => exact ⟨rfl, rfl⟩
-  | some f =>
-    have := decorFunc_noop env conf f n h
-    simp [decorFuncOpt, this]
+theorem decorFuncObj_noop (env : Env) (conf : Conf) (f : Func) (st : St) (h : f.noop env conf = true) :
+    (decorFuncObj env conf f st).val.erase = f.erase ∧ (decorFuncObj env conf f st).st = st ∧
+    (decorFuncObj env conf f st).raised = false := by
+  revert h
+  func_bash f env conf
+
+theorem decorFuncObj_warns (env : Env) (conf : Conf) (f : Func) (n w w' : Nat) :
+    (decorFuncObj env conf f ⟨n, w⟩).val = (decorFuncObj env conf f ⟨n, w'⟩).val ∧
+    (decorFuncObj env conf f ⟨n, w⟩).st.next = (decorFuncObj env conf f ⟨n, w'⟩).st.next ∧
+    (decorFuncObj env conf f ⟨n, w⟩).raised = (decorFuncObj env conf f ⟨n, w'⟩).raised := by
+  func_bash f env conf
+
+/-! ### the guard -/
+
+theorem guard_of_not_raised {α : Type} (conf : Conf) (orig : α) (r : Res α) (h : r.raised = false) :
+    guard conf orig r = r := by
+  simp [guard, h]
+
+theorem guard_raised {α : Type} (conf : Conf) (orig : α) (r : Res α) :
+    (guard conf orig r).raised = (r.raised && !conf.warn) := by
+  unfold guard
+  rcases r with ⟨v, s, rz⟩
+  rcases conf with ⟨z, wn⟩
+  cases rz <;> cases wn <;> simp
+
+theorem guard_warn {α : Type} (conf : Conf) (orig : α) (r : Res α) (h : conf.warn = true) :
+    (guard conf orig r).raised = false := by
+  rw [guard_raised]; simp [h]
+
+/-! ### `beartype_nontype` on the non-class kinds -/
+
+theorem decorLeaf_raised (env : Env) (conf : Conf) (m : Member) (st : St) :
+    (decorLeaf env conf m st).raised = m.failsLeaf env conf := by
+  cases m with
+  | func f =>
+    simp only [decorLeaf, Member.failsLeaf, decorFunc_raised]
+    by_cases h : f.fails env conf = true <;> simp [h]
+  | cmeth o f =>
+    simp only [decorLeaf, Member.failsLeaf, decorFuncObj_raised]
+    by_cases h : f.fails env conf = true <;> cases conf.warn <;> simp [h]
+  | smeth o f =>
+    simp only [decorLeaf, Member.failsLeaf, decorFuncObj_raised]
+    by_cases h : f.fails env conf = true <;> cases conf.warn <;> simp [h]
+  | prop o doc g s d =>
+    simp only [decorLeaf, Member.failsLeaf, decorFunc_raised, decorFuncOpt_raised]
+    by_cases hg : g.fails env conf = true <;> by_cases hs : Func.failsOpt env conf s = true <;>
+      by_cases hd : Func.failsOpt env conf d = true <;> simp [hg, hs, hd]
+  | klass k => simp [decorLeaf, Member.failsLeaf]
+  | other o => simp [decorLeaf, Member.failsLeaf]
+
+/-- an exception out of `beartype_nontype` leaves the object as it was, nothing allocated, no warning -/
+theorem decorLeaf_of_fails (env : Env) (conf : Conf) (m : Member) (st : St) (h : m.failsLeaf env conf = true) :
+    decorLeaf env conf m st = ⟨m, st, true⟩ := by
+  have hr := decorLeaf_raised env conf m st
+  rw [h] at hr
+  revert hr
+  cases m with
+  | func f => simp only [decorLeaf]; split <;> simp
+  | cmeth o f => simp only [decorLeaf]; split <;> simp
+  | smeth o f => simp only [decorLeaf]; split <;> simp
+  | prop o doc g s d =>
+    simp only [decorLeaf]
+    split
+    · simp
+    · split
+      · simp
+      · split <;> simp
+  | klass k => simp [decorLeaf]
+  | other o => simp [decorLeaf]
+
+theorem decorLeaf_of_not_fails_prop (env : Env) (conf : Conf) (o doc g s d) (st : St)
+    (h : (Member.prop o doc g s d).failsLeaf env conf = false) :
+    decorLeaf env conf (.prop o doc g s d) st =
+      ⟨.prop (decorFuncOpt env conf d (decorFuncOpt env conf s (decorFunc env conf g st).st).st).st.next doc
+          (decorFunc env conf g st).val (decorFuncOpt env conf s (decorFunc env conf g st).st).val
+          (decorFuncOpt env conf d (decorFuncOpt env conf s (decorFunc env conf g st).st).st).val,
+        ⟨(decorFuncOpt env conf d (decorFuncOpt env conf s (decorFunc env conf g st).st).st).st.next + 1,
+         (decorFuncOpt env conf d (decorFuncOpt env conf s (decorFunc env conf g st).st).st).st.warns⟩, false⟩ := by
+  simp only [Member.failsLeaf, Bool.or_eq_false_iff] at h
+  simp [decorLeaf, decorFunc_raised, decorFuncOpt_raised, h.1.1, h.1.2, h.2]
+
+theorem decorLeaf_shape (env : Env) (conf : Conf) (m : Member) (st : St) :
+    (decorLeaf env conf m st).val.shape = m.shape := by
+  by_cases hf : m.failsLeaf env conf = true
+  · rw [decorLeaf_of_fails env conf m st hf]
+  · have hf' : m.failsLeaf env conf = false := by simpa using hf
+    cases m with
+    | func f =>
+      simp only [Member.failsLeaf] at hf'
+      simp [decorLeaf, decorFunc_raised, hf', Member.shape, decorFunc_facts]
+    | cmeth o f =>
+      have hr := decorLeaf_raised env conf (.cmeth o f) st
+      rw [hf'] at hr
+      simp only [decorLeaf] at hr ⊢
+      split
+      · rfl
+      · simp [Member.shape, decorFuncObj_facts]
+    | smeth o f =>
+      simp only [decorLeaf]
+      split
+      · rfl
+      · simp [Member.shape, decorFuncObj_facts]
+    | prop o doc g s d =>
+      rw [decorLeaf_of_not_fails_prop env conf o doc g s d st hf']
+      simp [Member.shape, decorFunc_facts, decorFuncOpt_facts]
+    | klass k => simp [decorLeaf]
+    | other o => simp [decorLeaf]
+
+theorem decorLeafObj_shape (env : Env) (conf : Conf) (m : Member) (st : St) :
+    (decorLeafObj env conf m st).val.shape = m.shape := by
+  unfold decorLeafObj guard
+  split
+  · rfl
+  · exact decorLeaf_shape env conf m st
+
+theorem decorLeafObj_raised (env : Env) (conf : Conf) (m : Member) (st : St) :
+    (decorLeafObj env conf m st).raised = (m.failsLeaf env conf && !conf.warn) := by
+  simp [decorLeafObj, guard_raised, decorLeaf_raised]
+
+/-- under a configuration with the warning option, a member whose decoration raises comes back as
+    the very same object, with exactly one warning and nothing allocated -/
+theorem decorLeafObj_of_fails_warn (env : Env) (conf : Conf) (m : Member) (st : St)
+    (hw : conf.warn = true) (h : m.failsLeaf env conf = true) :
+    decorLeafObj env conf m st = ⟨m, ⟨st.next, st.warns + 1⟩, false⟩ := by
+  simp [decorLeafObj, decorLeaf_of_fails env conf m st h, guard, hw]
+
+theorem decorLeafObj_of_not_fails (env : Env) (conf : Conf) (m : Member) (st : St)
+    (h : m.failsLeaf env conf = false) :
+    decorLeafObj env conf m st = decorLeaf env conf m st := by
+  unfold decorLeafObj
+  exact guard_of_not_raised _ _ _ (by rw [decorLeaf_raised, h])
 
 /-! ### decorObject on the non-class kinds -/
 
-theorem decorObject_leaf (env : Env) (conf : Conf) (m : Member) (n : Nat) (h : ∀ k, m ≠ .klass k) :
-    decorObject env conf m n = decorLeaf env conf m n := by
+theorem decorObject_leaf (env : Env) (conf : Conf) (m : Member) (st : St) (h : ∀ k, m ≠ .klass k) :
+    decorObject env conf m st = decorLeafObj env conf m st := by
   cases m with
   | klass k => exact absurd rfl (h k)
-  | other o => simp [decorObject, decorLeaf]
+  | other o => simp [decorObject, decorLeafObj, decorLeaf, guard]
   | _ => simp [decorObject]
 
-theorem specMember_leaf (env : Env) (conf : Conf) (qual) (m : Member) (n : Nat) (h : ∀ k, m ≠ .klass k) :
-    specMember env conf qual m n = decorLeaf env conf m n := by
+theorem specMember_leaf (env : Env) (conf : Conf) (qual) (m : Member) (st : St) (h : ∀ k, m ≠ .klass k) :
+    specMember env conf qual m st = decorLeafObj env conf m st := by
   cases m with
   | klass k => exact absurd rfl (h k)
-  | other o => simp [specMember, decorLeaf]
+  | other o => simp [specMember, decorLeafObj, decorLeaf, guard]
   | _ => simp [specMember]
 
-/-! ### refinement: the loop of `beartype_type` is the member-wise map -/
+/-! ### refinement: the loop of `beartype_type` is the member-wise map (with the same exception at
+    the same member, leaving the same dictionary) -/
 
 mutual
-theorem decorClass_eq_spec (env : Env) (conf : Conf) (k : Klass) (n : Nat) (hwf : k.wf) :
-    decorClass env conf k n = specClass env conf k n := by
+theorem decorClass_eq_spec (env : Env) (conf : Conf) (k : Klass) (st : St) (hwf : k.wf) :
+    decorClass env conf k st = specClass env conf k st := by
   match k, hwf with
   | .mk oid qual bt dict inh, hwf =>
     simp only [Klass.wf] at hwf
     simp only [decorClass, specClass]
     split
     · rfl
-    · have := loop_eq_spec env conf qual dict .nil n hwf.2 (by simpa using hwf.1)
+    · have := loop_eq_spec env conf qual dict .nil st hwf.2 (by simpa using hwf.1)
       simp only [Members.nil_append] at this
       rw [this]
 termination_by structural k
 
-theorem loop_eq_spec (env : Env) (conf : Conf) (qual : List String) (items pre : Members) (n : Nat)
+theorem loop_eq_spec (env : Env) (conf : Conf) (qual : List String) (items pre : Members) (st : St)
     (hwf : items.wf) (hnd : (pre.append items).names.Nodup) :
-    loop env conf qual items (pre.append items) n =
-      (pre.append (specMembers env conf qual items n).1, (specMembers env conf qual items n).2) := by
+    loop env conf qual items (pre.append items) st =
+      ⟨pre.append (specMembers env conf qual items st).val, (specMembers env conf qual items st).st,
+       (specMembers env conf qual items st).raised⟩ := by
   match items, hwf with
   | .nil, _ => simp [loop, specMembers]
   | .cons nm m rest, hwf =>
@@ -151,35 +359,40 @@ theorem loop_eq_spec (env : Env) (conf : Conf) (qual : List String) (items pre :
       have := (List.nodup_append.mp hnd).2.2
       intro hin
       exact this nm hin nm (by simp) rfl
-    have hm := decorObject_eq_spec env conf qual m n hwf.1
+    have hm := decorObject_eq_spec env conf qual m st hwf.1
     simp only [loop, specMembers]
     by_cases hb : beartypeable qual m = true
     · simp only [hb, ↓reduceIte]
-      rw [hm.1 hb, Members.setAttr_append_cons _ _ _ _ _ hnm, ← Members.snoc_append]
-      have hnd' : ((pre.snoc nm (specMember env conf qual m n).1).append rest).names.Nodup := by
-        rw [Members.snoc_append, Members.names_append, Members.names_cons]
-        rw [Members.names_append, Members.names_cons] at hnd
-        exact hnd
-      rw [loop_eq_spec env conf qual rest _ _ hwf.2 hnd', Members.snoc_append]
+      rw [hm.1 hb, Members.setAttr_append_cons _ _ _ _ _ hnm]
+      by_cases hr : (specMember env conf qual m st).raised = true
+      · simp only [hr, ↓reduceIte]
+      · simp only [hr, Bool.false_eq_true, ↓reduceIte]
+        rw [← Members.snoc_append]
+        have hnd' : ((pre.snoc nm (specMember env conf qual m st).val).append rest).names.Nodup := by
+          rw [Members.snoc_append, Members.names_append, Members.names_cons]
+          rw [Members.names_append, Members.names_cons] at hnd
+          exact hnd
+        rw [loop_eq_spec env conf qual rest _ _ hwf.2 hnd', Members.snoc_append]
     · simp only [hb, Bool.false_eq_true, ↓reduceIte]
       have hb' : beartypeable qual m = false := by simpa using hb
       rw [hm.2 hb']
       have hnd' : ((pre.snoc nm m).append rest).names.Nodup := by
         rw [Members.snoc_append]; exact hnd
-      have := loop_eq_spec env conf qual rest (pre.snoc nm m) n hwf.2 hnd'
+      have := loop_eq_spec env conf qual rest (pre.snoc nm m) st hwf.2 hnd'
       rw [Members.snoc_append] at this
+      simp only [Bool.false_eq_true, ↓reduceIte]
       rw [this, Members.snoc_append]
 termination_by structural items
 
-theorem decorObject_eq_spec (env : Env) (conf : Conf) (qual : List String) (m : Member) (n : Nat) (hwf : m.wf) :
-    (beartypeable qual m = true → decorObject env conf m n = specMember env conf qual m n) ∧
-    (beartypeable qual m = false → specMember env conf qual m n = (m, n)) := by
+theorem decorObject_eq_spec (env : Env) (conf : Conf) (qual : List String) (m : Member) (st : St) (hwf : m.wf) :
+    (beartypeable qual m = true → decorObject env conf m st = specMember env conf qual m st) ∧
+    (beartypeable qual m = false → specMember env conf qual m st = ⟨m, st, false⟩) := by
   match m, hwf with
   | .klass k, hwf =>
     simp only [Member.wf] at hwf
     simp only [beartypeable, decorObject, specMember]
     constructor
-    · intro hb; simp only [hb, ↓reduceIte]; rw [decorClass_eq_spec env conf k n hwf]
+    · intro hb; simp only [hb, ↓reduceIte]; rw [decorClass_eq_spec env conf k st hwf]
     · intro hb; simp [hb]
   | .func f, _ => simp [beartypeable, decorObject, specMember]
   | .cmeth o f, _ => simp [beartypeable, decorObject, specMember]
@@ -191,145 +404,433 @@ end
 
 /-! ### descriptor kind, names, docstrings, signatures -/
 
-theorem decorLeaf_shape (env : Env) (conf : Conf) (m : Member) (n : Nat) :
-    (decorLeaf env conf m n).1.shape = m.shape := by
-  cases m with
-  | func f => simp [decorLeaf, Member.shape, decorFunc_facts]
-  | cmeth o f => simp [decorLeaf, Member.shape, decorFunc_facts]
-  | smeth o f => simp [decorLeaf, Member.shape, decorFunc_facts]
-  | prop o doc g s d => simp [decorLeaf, Member.shape, decorFunc_facts, decorFuncOpt_facts]
-  | klass k => simp [decorLeaf]
-  | other o => simp [decorLeaf]
+theorem guard_klass_shape (conf : Conf) (r : Res Klass) :
+    (guard conf (Member.klass r.val) ⟨.klass r.val, r.st, r.raised⟩).val = .klass r.val := by
+  unfold guard
+  split <;> rfl
 
 mutual
-theorem specClass_shape (env : Env) (conf : Conf) (k : Klass) (n : Nat) :
-    (specClass env conf k n).1.shape = k.shape := by
+theorem specClass_shape (env : Env) (conf : Conf) (k : Klass) (st : St) :
+    (specClass env conf k st).val.shape = k.shape := by
   match k with
   | .mk oid qual bt dict inh =>
     simp only [specClass]
     split
     · rfl
-    · simp only [Klass.shape, specMembers_shapes env conf qual dict n]
+    · simp only [Klass.shape, specMembers_shapes env conf qual dict st]
 termination_by structural k
 
-theorem specMembers_shapes (env : Env) (conf : Conf) (qual : List String) (ms : Members) (n : Nat) :
-    (specMembers env conf qual ms n).1.shapes = ms.shapes := by
+theorem specMembers_shapes (env : Env) (conf : Conf) (qual : List String) (ms : Members) (st : St) :
+    (specMembers env conf qual ms st).val.shapes = ms.shapes := by
   match ms with
   | .nil => rfl
   | .cons nm m rest =>
-    simp only [specMembers, Members.shapes, specMember_shape env conf qual m n,
-      specMembers_shapes env conf qual rest]
+    simp only [specMembers]
+    split
+    · simp only [Members.shapes, specMember_shape env conf qual m st]
+    · simp only [Members.shapes, specMember_shape env conf qual m st,
+        specMembers_shapes env conf qual rest]
 termination_by structural ms
 
-theorem specMember_shape (env : Env) (conf : Conf) (qual : List String) (m : Member) (n : Nat) :
-    (specMember env conf qual m n).1.shape = m.shape := by
+theorem specMember_shape (env : Env) (conf : Conf) (qual : List String) (m : Member) (st : St) :
+    (specMember env conf qual m st).val.shape = m.shape := by
   match m with
   | .klass k =>
     simp only [specMember]
     split
-    · simp only [Member.shape]; exact specClass_shape env conf k n
+    · rw [guard_klass_shape]; simp only [Member.shape]; exact specClass_shape env conf k st
     · rfl
-  | .func f => simp only [specMember]; exact decorLeaf_shape ..
-  | .cmeth o f => simp only [specMember]; exact decorLeaf_shape ..
-  | .smeth o f => simp only [specMember]; exact decorLeaf_shape ..
-  | .prop o doc g s d => simp only [specMember]; exact decorLeaf_shape ..
+  | .func f => simp only [specMember]; exact decorLeafObj_shape ..
+  | .cmeth o f => simp only [specMember]; exact decorLeafObj_shape ..
+  | .smeth o f => simp only [specMember]; exact decorLeafObj_shape ..
+  | .prop o doc g s d => simp only [specMember]; exact decorLeafObj_shape ..
   | .other o => rfl
 termination_by structural m
 end
 
 /-! ### no-op cases -/
 
-theorem decorLeaf_noop (env : Env) (conf : Conf) (m : Member) (n : Nat) (h : m.allNoop env conf = true)
+theorem Func.noop_not_fails (env : Env) (conf : Conf) (f : Func) (h : f.noop env conf = true) :
+    f.fails env conf = false := by
+  revert h
+  func_bash f env conf
+
+theorem Func.noopOpt_not_fails (env : Env) (conf : Conf) (f : Option Func) (h : Func.noopOpt env conf f = true) :
+    Func.failsOpt env conf f = false := by
+  cases f with
+  | none => rfl
+  | some f => exact Func.noop_not_fails env conf f h
+
+theorem decorLeaf_noop (env : Env) (conf : Conf) (m : Member) (st : St) (h : m.allNoop env conf = true)
     (hk : ∀ k, m ≠ .klass k) :
-    (decorLeaf env conf m n).1.erase = m.erase := by
+    (decorLeaf env conf m st).val.erase = m.erase ∧ (decorLeaf env conf m st).raised = false := by
   cases m with
   | func f =>
     simp only [Member.allNoop] at h
-    simp [decorLeaf, Member.erase, decorFunc_noop env conf f n h]
+    have := decorFunc_noop env conf f st h
+    simp [decorLeaf, Member.erase, this]
   | cmeth o f =>
     simp only [Member.allNoop] at h
-    simp [decorLeaf, Member.erase, decorFunc_noop env conf f n h]
+    have := decorFuncObj_noop env conf f st h
+    simp [decorLeaf, Member.erase, this]
   | smeth o f =>
     simp only [Member.allNoop] at h
-    simp [decorLeaf, Member.erase, decorFunc_noop env conf f n h]
+    have := decorFuncObj_noop env conf f st h
+    simp [decorLeaf, Member.erase, this]
   | prop o doc g s d =>
     simp only [Member.allNoop, Bool.and_eq_true] at h
-    have hg := decorFunc_noop env conf g n h.1.1
-    have hs := decorFuncOpt_noop env conf s n h.1.2
-    have hd := decorFuncOpt_noop env conf d n h.2
-    simp [decorLeaf, Member.erase, hg.1, hg.2, hs.1, hs.2, hd.1]
+    have hf : (Member.prop o doc g s d).failsLeaf env conf = false := by
+      simp [Member.failsLeaf, Func.noop_not_fails env conf g h.1.1, Func.noopOpt_not_fails env conf s h.1.2,
+        Func.noopOpt_not_fails env conf d h.2]
+    rw [decorLeaf_of_not_fails_prop env conf o doc g s d st hf]
+    have hg := decorFunc_noop env conf g st h.1.1
+    have hs := decorFuncOpt_noop env conf s st h.1.2
+    have hd := decorFuncOpt_noop env conf d st h.2
+    simp [Member.erase, hg.1, hg.2.1, hs.1, hs.2.1, hd.1]
   | klass k => exact absurd rfl (hk k)
   | other o => simp [decorLeaf]
 
+theorem decorLeafObj_noop (env : Env) (conf : Conf) (m : Member) (st : St) (h : m.allNoop env conf = true)
+    (hk : ∀ k, m ≠ .klass k) :
+    (decorLeafObj env conf m st).val.erase = m.erase ∧ (decorLeafObj env conf m st).raised = false := by
+  have := decorLeaf_noop env conf m st h hk
+  unfold decorLeafObj
+  rw [guard_of_not_raised _ _ _ this.2]
+  exact this
+
 mutual
-theorem specClass_noop (env : Env) (conf : Conf) (k : Klass) (n : Nat) (h : k.allNoop env conf = true) :
-    (specClass env conf k n).1.erase = k.erase := by
+theorem specClass_noop (env : Env) (conf : Conf) (k : Klass) (st : St) (h : k.allNoop env conf = true) :
+    (specClass env conf k st).val.erase = k.erase ∧ (specClass env conf k st).raised = false := by
   match k, h with
   | .mk oid qual bt dict inh, h =>
     simp only [Klass.allNoop] at h
     simp only [specClass]
     split
-    · rfl
-    · simp only [Klass.erase, specMembers_noop env conf qual dict n h]
+    · exact ⟨rfl, rfl⟩
+    · have := specMembers_noop env conf qual dict st h
+      simp only [Klass.erase, this.1, this.2, and_self]
 termination_by structural k
 
-theorem specMembers_noop (env : Env) (conf : Conf) (qual : List String) (ms : Members) (n : Nat)
+theorem specMembers_noop (env : Env) (conf : Conf) (qual : List String) (ms : Members) (st : St)
     (h : ms.allNoop env conf = true) :
-    (specMembers env conf qual ms n).1.erase = ms.erase := by
+    (specMembers env conf qual ms st).val.erase = ms.erase ∧ (specMembers env conf qual ms st).raised = false := by
   match ms, h with
-  | .nil, _ => rfl
+  | .nil, _ => exact ⟨rfl, rfl⟩
   | .cons nm m rest, h =>
     simp only [Members.allNoop, Bool.and_eq_true] at h
-    simp only [specMembers, Members.erase, specMember_noop env conf qual m n h.1,
-      specMembers_noop env conf qual rest _ h.2]
+    have hm := specMember_noop env conf qual m st h.1
+    have hr := specMembers_noop env conf qual rest (specMember env conf qual m st).st h.2
+    simp only [specMembers, hm.2, Bool.false_eq_true, ↓reduceIte, Members.erase, hm.1, hr.1, hr.2, and_self]
 termination_by structural ms
 
-theorem specMember_noop (env : Env) (conf : Conf) (qual : List String) (m : Member) (n : Nat)
+theorem specMember_noop (env : Env) (conf : Conf) (qual : List String) (m : Member) (st : St)
     (h : m.allNoop env conf = true) :
-    (specMember env conf qual m n).1.erase = m.erase := by
+    (specMember env conf qual m st).val.erase = m.erase ∧ (specMember env conf qual m st).raised = false := by
   match m, h with
   | .klass k, h =>
     simp only [Member.allNoop] at h
     simp only [specMember]
     split
-    · simp only [Member.erase]; rw [specClass_noop env conf k n h]
-    · rfl
-  | .func f, h => simp only [specMember]; exact decorLeaf_noop _ _ _ _ h (by simp)
-  | .cmeth o f, h => simp only [specMember]; exact decorLeaf_noop _ _ _ _ h (by simp)
-  | .smeth o f, h => simp only [specMember]; exact decorLeaf_noop _ _ _ _ h (by simp)
-  | .prop o doc g s d, h => simp only [specMember]; exact decorLeaf_noop _ _ _ _ h (by simp)
-  | .other o, _ => rfl
+    · have := specClass_noop env conf k st h
+      rw [guard_of_not_raised _ _ _ (by exact this.2)]
+      simp only [Member.erase, this.1, this.2, and_self]
+    · exact ⟨rfl, rfl⟩
+  | .func f, h => simp only [specMember]; exact decorLeafObj_noop _ _ _ _ h (by simp)
+  | .cmeth o f, h => simp only [specMember]; exact decorLeafObj_noop _ _ _ _ h (by simp)
+  | .smeth o f, h => simp only [specMember]; exact decorLeafObj_noop _ _ _ _ h (by simp)
+  | .prop o doc g s d, h => simp only [specMember]; exact decorLeafObj_noop _ _ _ _ h (by simp)
+  | .other o, _ => exact ⟨rfl, rfl⟩
 termination_by structural m
 end
 
 /-! ### the class marker, identity of the class object -/
 
-theorem decorClass_fields (env : Env) (conf : Conf) (k : Klass) (n : Nat) :
-    (decorClass env conf k n).1.oid = k.oid ∧ (decorClass env conf k n).1.qual = k.qual ∧
-    (decorClass env conf k n).1.inherited = k.inherited ∧
-    (decorClass env conf k n).1.beartyped = true := by
+theorem decorClass_fields (env : Env) (conf : Conf) (k : Klass) (st : St) :
+    (decorClass env conf k st).val.oid = k.oid ∧ (decorClass env conf k st).val.qual = k.qual ∧
+    (decorClass env conf k st).val.inherited = k.inherited ∧
+    ((decorClass env conf k st).raised = false → (decorClass env conf k st).val.beartyped = true) ∧
+    ((decorClass env conf k st).raised = true → (decorClass env conf k st).val.beartyped = false) := by
   cases k with
   | mk oid qual bt dict inh =>
     simp only [decorClass]
     split <;> simp_all [Klass.oid, Klass.qual, Klass.inherited, Klass.beartyped]
 
-theorem decorClass_of_beartyped (env : Env) (conf : Conf) (k : Klass) (n : Nat) (h : k.beartyped = true) :
-    decorClass env conf k n = (k, n) := by
+theorem decorClass_of_beartyped (env : Env) (conf : Conf) (k : Klass) (st : St) (h : k.beartyped = true) :
+    decorClass env conf k st = ⟨k, st, false⟩ := by
   cases k with
   | mk oid qual bt dict inh =>
     simp only [Klass.beartyped] at h
     simp [decorClass, h]
 
+/-! ### a configuration with the warning option: nothing propagates -/
+
+theorem decorObject_warn (env : Env) (conf : Conf) (m : Member) (st : St) (hw : conf.warn = true) :
+    (decorObject env conf m st).raised = false := by
+  cases m with
+  | klass k => simp only [decorObject]; exact guard_warn _ _ _ hw
+  | other o => rfl
+  | func f => simp only [decorObject, decorLeafObj]; exact guard_warn _ _ _ hw
+  | cmeth o f => simp only [decorObject, decorLeafObj]; exact guard_warn _ _ _ hw
+  | smeth o f => simp only [decorObject, decorLeafObj]; exact guard_warn _ _ _ hw
+  | prop o doc g s d => simp only [decorObject, decorLeafObj]; exact guard_warn _ _ _ hw
+
+theorem loop_warn (env : Env) (conf : Conf) (qual : List String) (hw : conf.warn = true) :
+    (items dict : Members) → (st : St) → (loop env conf qual items dict st).raised = false
+  | .nil, _, _ => rfl
+  | .cons nm m rest, dict, st => by
+    simp only [loop]
+    split
+    · simp only [decorObject_warn env conf m st hw, Bool.false_eq_true, ↓reduceIte]
+      exact loop_warn env conf qual hw rest _ _
+    · exact loop_warn env conf qual hw rest _ _
+
+theorem decorClass_warn (env : Env) (conf : Conf) (k : Klass) (st : St) (hw : conf.warn = true) :
+    (decorClass env conf k st).raised = false := by
+  cases k with
+  | mk oid qual bt dict inh =>
+    simp only [decorClass]
+    split
+    · rfl
+    · exact loop_warn env conf qual hw dict dict st
+
 /-! ### idempotence on the non-class kinds -/
 
-theorem decorLeaf_idem (env : Env) (conf : Conf) (m : Member) (n n' : Nat) :
-    (decorLeaf env conf (decorLeaf env conf m n).1 n').1.core = (decorLeaf env conf m n).1.core := by
+theorem Member.failsLeaf_core_congr (env : Env) (conf : Conf) (o o' : Nat) (f : Func) :
+    (Member.cmeth o f).failsLeaf env conf = (Member.cmeth o' f).failsLeaf env conf ∧
+    (Member.smeth o f).failsLeaf env conf = (Member.smeth o' f).failsLeaf env conf := ⟨rfl, rfl⟩
+
+/-- decorating the result of `beartype_nontype` again: the same functions inside (the descriptor
+    object is rebuilt), and it raises again iff it raised -/
+theorem decorLeaf_idem (env : Env) (conf : Conf) (m : Member) (st st' : St) :
+    (decorLeaf env conf (decorLeaf env conf m st).val st').val.core = (decorLeaf env conf m st).val.core ∧
+    (decorLeaf env conf (decorLeaf env conf m st).val st').raised = (decorLeaf env conf m st).raised := by
+  by_cases hf : m.failsLeaf env conf = true
+  · rw [decorLeaf_of_fails env conf m st hf, decorLeaf_of_fails env conf m st' hf]
+    exact ⟨rfl, rfl⟩
+  · have hf' : m.failsLeaf env conf = false := by simpa using hf
+    cases m with
+    | func f =>
+      simp only [Member.failsLeaf] at hf'
+      have h1 : (decorFunc env conf f st).raised = false := by rw [decorFunc_raised, hf']
+      simp [decorLeaf, h1, decorFunc_idem, Member.core]
+    | cmeth o f =>
+      have h1 := decorLeaf_raised env conf (.cmeth o f) st
+      rw [hf'] at h1
+      have hi := decorFuncObj_idem env conf f st
+      simp only [decorLeaf] at h1 ⊢
+      split at h1
+      · simp at h1
+      · rename_i hr
+        have hr' : (decorFuncObj env conf f st).raised = false := by simpa using hr
+        simp [hr', (hi _).1, (hi _).2, Member.core]
+    | smeth o f =>
+      have h1 := decorLeaf_raised env conf (.smeth o f) st
+      rw [hf'] at h1
+      have hi := decorFuncObj_idem env conf f st
+      simp only [decorLeaf] at h1 ⊢
+      split at h1
+      · simp at h1
+      · rename_i hr
+        have hr' : (decorFuncObj env conf f st).raised = false := by simpa using hr
+        simp [hr', (hi _).1, (hi _).2, Member.core]
+    | prop o doc g s d =>
+      rw [decorLeaf_of_not_fails_prop env conf o doc g s d st hf']
+      simp only [Member.failsLeaf, Bool.or_eq_false_iff] at hf'
+      have hg : (decorFunc env conf g st).raised = false := by rw [decorFunc_raised, hf'.1.1]
+      have hs : ∀ x, (decorFuncOpt env conf s x).raised = false := by intro x; rw [decorFuncOpt_raised, hf'.1.2]
+      have hd : ∀ x, (decorFuncOpt env conf d x).raised = false := by intro x; rw [decorFuncOpt_raised, hf'.2]
+      simp [decorLeaf, decorFunc_idem, decorFuncOpt_idem, hg, hs, hd, Member.core]
+    | klass k => simp [decorLeaf]
+    | other o => simp [decorLeaf]
+
+/-- … and the same by hand (under the guard of the configuration) -/
+theorem decorLeafObj_idem (env : Env) (conf : Conf) (m : Member) (st st' : St) :
+    (decorLeafObj env conf (decorLeafObj env conf m st).val st').val.core = (decorLeafObj env conf m st).val.core ∧
+    (decorLeafObj env conf (decorLeafObj env conf m st).val st').raised = (decorLeafObj env conf m st).raised := by
+  by_cases hf : m.failsLeaf env conf = true
+  · have h0 : (decorLeafObj env conf m st).val = m := by
+      simp only [decorLeafObj, decorLeaf_of_fails env conf m st hf, guard]
+      split <;> rfl
+    rw [h0]
+    simp only [decorLeafObj, decorLeaf_of_fails env conf m st hf, decorLeaf_of_fails env conf m st' hf, guard]
+    split <;> exact ⟨rfl, rfl⟩
+  · have hf' : m.failsLeaf env conf = false := by simpa using hf
+    have hi := decorLeaf_idem env conf m st st'
+    have hr : (decorLeaf env conf m st).raised = false := by rw [decorLeaf_raised, hf']
+    rw [decorLeafObj_of_not_fails env conf m st hf']
+    have hr2 : (decorLeaf env conf (decorLeaf env conf m st).val st').raised = false := by rw [hi.2, hr]
+    unfold decorLeafObj
+    rw [guard_of_not_raised _ _ _ hr2]
+    exact hi
+
+/-! ### warnings already issued do not influence a decoration -/
+
+/-- the same outcome with `k` more warnings on the counter -/
+def Res.shift {α : Type} (k : Nat) (r : Res α) : Res α := ⟨r.val, ⟨r.st.next, r.st.warns + k⟩, r.raised⟩
+
+@[simp] theorem Res.shift_val {α : Type} (k : Nat) (r : Res α) : (r.shift k).val = r.val := rfl
+@[simp] theorem Res.shift_raised {α : Type} (k : Nat) (r : Res α) : (r.shift k).raised = r.raised := rfl
+@[simp] theorem Res.shift_st {α : Type} (k : Nat) (r : Res α) : (r.shift k).st = ⟨r.st.next, r.st.warns + k⟩ := rfl
+
+theorem decorFunc_shift (env : Env) (conf : Conf) (f : Func) (st : St) (k : Nat) :
+    decorFunc env conf f ⟨st.next, st.warns + k⟩ = (decorFunc env conf f st).shift k := by
+  rcases st with ⟨n, w⟩
+  simp only [Res.shift]
+  func_bash f env conf
+
+theorem decorFuncOpt_shift (env : Env) (conf : Conf) (f : Option Func) (st : St) (k : Nat) :
+    decorFuncOpt env conf f ⟨st.next, st.warns + k⟩ = (decorFuncOpt env conf f st).shift k := by
+  cases f with
+  | none => rfl
+  | some f => simp [decorFuncOpt, decorFunc_shift, Res.shift]
+
+theorem guard_shift {α : Type} (conf : Conf) (orig : α) (r : Res α) (k : Nat) :
+    guard conf orig (r.shift k) = (guard conf orig r).shift k := by
+  unfold guard
+  simp only [Res.shift_raised]
+  by_cases h : (r.raised && conf.warn) = true
+  · simp only [h, ↓reduceIte]; simp [Res.shift, Nat.add_right_comm]
+  · simp only [h, Bool.false_eq_true, ↓reduceIte]
+
+theorem decorFuncObj_shift (env : Env) (conf : Conf) (f : Func) (st : St) (k : Nat) :
+    decorFuncObj env conf f ⟨st.next, st.warns + k⟩ = (decorFuncObj env conf f st).shift k := by
+  simp only [decorFuncObj, decorFunc_shift, guard_shift]
+
+theorem decorLeaf_shift (env : Env) (conf : Conf) (m : Member) (st : St) (k : Nat) :
+    decorLeaf env conf m ⟨st.next, st.warns + k⟩ = (decorLeaf env conf m st).shift k := by
   cases m with
-  | func f => simp [decorLeaf, Member.core, decorFunc_idem]
-  | cmeth o f => simp [decorLeaf, Member.core, decorFunc_idem]
-  | smeth o f => simp [decorLeaf, Member.core, decorFunc_idem]
-  | prop o doc g s d => simp [decorLeaf, Member.core, decorFunc_idem, decorFuncOpt_idem]
-  | klass k => simp [decorLeaf]
-  | other o => simp [decorLeaf]
+  | func f =>
+    simp only [decorLeaf, decorFunc_shift, Res.shift_raised]
+    split <;> simp [Res.shift]
+  | cmeth o f =>
+    simp only [decorLeaf, decorFuncObj_shift, Res.shift_raised]
+    split <;> simp [Res.shift]
+  | smeth o f =>
+    simp only [decorLeaf, decorFuncObj_shift, Res.shift_raised]
+    split <;> simp [Res.shift]
+  | prop o doc g s d =>
+    simp only [decorLeaf, decorFunc_shift, Res.shift_raised, Res.shift_st, decorFuncOpt_shift, Res.shift_val]
+    split
+    · simp [Res.shift]
+    · split
+      · simp [Res.shift]
+      · split <;> simp [Res.shift]
+  | klass k => simp [decorLeaf, Res.shift]
+  | other o => simp [decorLeaf, Res.shift]
+
+theorem decorLeafObj_shift (env : Env) (conf : Conf) (m : Member) (st : St) (k : Nat) :
+    decorLeafObj env conf m ⟨st.next, st.warns + k⟩ = (decorLeafObj env conf m st).shift k := by
+  simp only [decorLeafObj, decorLeaf_shift, guard_shift]
+
+mutual
+theorem specClass_shift (env : Env) (conf : Conf) (k : Klass) (st : St) (j : Nat) :
+    specClass env conf k ⟨st.next, st.warns + j⟩ = (specClass env conf k st).shift j := by
+  match k with
+  | .mk oid qual bt dict inh =>
+    simp only [specClass]
+    split
+    · simp [Res.shift]
+    · rw [specMembers_shift env conf qual dict st j]; simp [Res.shift]
+termination_by structural k
+
+theorem specMembers_shift (env : Env) (conf : Conf) (qual : List String) (ms : Members) (st : St) (j : Nat) :
+    specMembers env conf qual ms ⟨st.next, st.warns + j⟩ = (specMembers env conf qual ms st).shift j := by
+  match ms with
+  | .nil => simp [specMembers, Res.shift]
+  | .cons nm m rest =>
+    simp only [specMembers]
+    rw [specMember_shift env conf qual m st j]
+    simp only [Res.shift_raised, Res.shift_val, Res.shift_st]
+    by_cases hr : (specMember env conf qual m st).raised = true
+    · simp [hr, Res.shift]
+    · simp only [hr, Bool.false_eq_true, ↓reduceIte]
+      rw [specMembers_shift env conf qual rest (specMember env conf qual m st).st j]; simp [Res.shift]
+termination_by structural ms
+
+theorem specMember_shift (env : Env) (conf : Conf) (qual : List String) (m : Member) (st : St) (j : Nat) :
+    specMember env conf qual m ⟨st.next, st.warns + j⟩ = (specMember env conf qual m st).shift j := by
+  match m with
+  | .klass k =>
+    simp only [specMember]
+    split
+    · rw [specClass_shift env conf k st j]
+      exact guard_shift conf _ ⟨Member.klass (specClass env conf k st).val, (specClass env conf k st).st,
+        (specClass env conf k st).raised⟩ j
+    · simp [Res.shift]
+  | .func f => simp only [specMember]; exact decorLeafObj_shift ..
+  | .cmeth o f => simp only [specMember]; exact decorLeafObj_shift ..
+  | .smeth o f => simp only [specMember]; exact decorLeafObj_shift ..
+  | .prop o doc g s d => simp only [specMember]; exact decorLeafObj_shift ..
+  | .other o => simp [specMember, Res.shift]
+termination_by structural m
+end
+
+/-! ### member-wise decoration of a concatenated dictionary; nothing propagates under the warning option -/
+
+theorem specMember_warn (env : Env) (conf : Conf) (qual : List String) (m : Member) (st : St)
+    (hw : conf.warn = true) : (specMember env conf qual m st).raised = false := by
+  cases m with
+  | klass k =>
+    simp only [specMember]
+    split
+    · exact guard_warn _ _ _ hw
+    · rfl
+  | other o => rfl
+  | func f => simp only [specMember, decorLeafObj]; exact guard_warn _ _ _ hw
+  | cmeth o f => simp only [specMember, decorLeafObj]; exact guard_warn _ _ _ hw
+  | smeth o f => simp only [specMember, decorLeafObj]; exact guard_warn _ _ _ hw
+  | prop o doc g s d => simp only [specMember, decorLeafObj]; exact guard_warn _ _ _ hw
+
+theorem specMembers_warn (env : Env) (conf : Conf) (qual : List String) (hw : conf.warn = true) :
+    (ms : Members) → (st : St) → (specMembers env conf qual ms st).raised = false
+  | .nil, _ => rfl
+  | .cons nm m rest, st => by
+    simp only [specMembers, specMember_warn env conf qual m st hw, Bool.false_eq_true, ↓reduceIte]
+    exact specMembers_warn env conf qual hw rest _
+
+theorem specMembers_append (env : Env) (conf : Conf) (qual : List String) :
+    (pre xs : Members) → (st : St) →
+    specMembers env conf qual (pre.append xs) st =
+      if (specMembers env conf qual pre st).raised then
+        ⟨(specMembers env conf qual pre st).val.append xs, (specMembers env conf qual pre st).st, true⟩
+      else
+        ⟨(specMembers env conf qual pre st).val.append (specMembers env conf qual xs (specMembers env conf qual pre st).st).val,
+         (specMembers env conf qual xs (specMembers env conf qual pre st).st).st,
+         (specMembers env conf qual xs (specMembers env conf qual pre st).st).raised⟩
+  | .nil, xs, st => by simp [specMembers]
+  | .cons nm m rest, xs, st => by
+    simp only [Members.cons_append, specMembers]
+    by_cases hr : (specMember env conf qual m st).raised = true
+    · simp [hr]
+    · simp only [hr, Bool.false_eq_true, ↓reduceIte]
+      rw [specMembers_append env conf qual rest xs]
+      split <;> simp
+
+/-! ### by hand, twice -/
+
+theorem decorLeafObj_not_klass (env : Env) (conf : Conf) (m : Member) (st : St) (h : ∀ k, m ≠ .klass k) :
+    ∀ k, (decorLeafObj env conf m st).val ≠ .klass k := by
+  intro k e
+  have hs := decorLeafObj_shape env conf m st
+  rw [e] at hs
+  cases k with
+  | mk oid qual bt dict inh =>
+    cases m with
+    | klass k' => exact absurd rfl (h k')
+    | _ => simp [Member.shape, Klass.shape] at hs
+
+/-- a function decorated by hand twice: the second application returns the very object the first
+    returned and allocates nothing -/
+theorem decorLeafObj_func_idem (env : Env) (conf : Conf) (f : Func) (st st' : St)
+    (h : (decorLeafObj env conf (.func f) st).raised = false) :
+    (decorLeafObj env conf (decorLeafObj env conf (.func f) st).val st').val = (decorLeafObj env conf (.func f) st).val ∧
+    (decorLeafObj env conf (decorLeafObj env conf (.func f) st).val st').st.next = st'.next := by
+  revert h
+  rcases f with ⟨o, nm, dc, sg, an, nt, mk, w⟩
+  rcases env with ⟨op⟩
+  rcases conf with ⟨z, wn⟩
+  cases op <;> cases z <;> cases wn <;> cases an <;> cases nt <;> cases mk <;>
+    simp [decorLeafObj, decorLeaf, decorFunc, guard, Func.unbeartypeable, Func.setNtc, Func.mkWrapper,
+          Func.ann, Func.ntc, Func.marker]
 
 end BearVerif.Decor
